@@ -36,6 +36,11 @@ def case_st(draw, relative=False):
         src = draw(st.sampled_from(rules))
         twin = dict(src, mods=draw(st.lists(st.one_of(csvrules.amount_mod, csvrules.date_mod), min_size=1, max_size=2)))
         rules.insert(draw(st.integers(0, len(rules))), twin)
+    # a row whose pattern Python's re rejects: the CSV loader accepts the file, the row never applies - before and after migration
+    if draw(st.integers(0, 3)) == 0:
+        bad = draw(st.sampled_from(['[', '*STARBUCKS', 'a{2,1}', 'AB)', 'a{4294967296}', 'X(?P<n', 'UBER(', '+1']))
+        rules.insert(draw(st.integers(0, len(rules))), {'pattern': bad, 'mods': draw(st.lists(csvrules.amount_mod, max_size=1)), 'merchant': 'Broken Row', 'category': 'Broken',
+                                                         'subcategory': '', 'tags': ['broken']})
     # rows with neither category nor tags (a no-op row in the CSV)
     if rules and draw(st.integers(0, 4)) == 0:
         i = draw(st.integers(0, len(rules) - 1))
@@ -147,13 +152,20 @@ def check(case, stats: Stats):
         if ref['winner'] is not None or ref['tags']:
             if any('\\' in r['pattern'] or r['mods'] or r['tags'] for r in rules):
                 nontrivial = True
+        def _srch(pat, text_):
+            try:
+                return re.search(pat, text_, re.I)
+            except (re.error, OverflowError):
+                return None
         for r in rules:
             for mod in r['mods']:
-                if mod['k'] == 'amount' and mod['op'] == '=' and 0 < abs(txn['amount'] - mod['v']) < 0.0101 and re.search(r['pattern'], txn['description'], re.I):
+                if mod['k'] == 'amount' and mod['op'] == '=' and 0 < abs(txn['amount'] - mod['v']) < 0.0101 and _srch(r['pattern'], txn['description']):
                     classes.add('amount_eq_boundary')
-                if mod['k'] in ('date', 'month') and txn.get('date') is None and re.search(r['pattern'], txn['description'], re.I):
+                if mod['k'] in ('date', 'month') and txn.get('date') is None and _srch(r['pattern'], txn['description']):
                     classes.add('missing_date_with_date_modifier')
     for r in rules:
+        if r['merchant'] == 'Broken Row':
+            classes.add('row_with_unusable_pattern')
         if '\\' in r['pattern']:
             classes.add('backslash_escape')
         if '"' in r['pattern'] or "'" in r['pattern']:
